@@ -210,7 +210,11 @@ var strategies = []strategy{
 					modq(in2[i], q)
 				case 2:
 					j := (i + 1) % len(in2)
-					in2[i], in2[j] = in2[j], in2[i]
+					// do not feed a large value into a parameter-like position (a width, a count):
+					// hint functions allocate from those
+					if (in2[i].BitLen() > 24) == (in2[j].BitLen() > 24) {
+						in2[i], in2[j] = in2[j], in2[i]
+					}
 				default: // the inputs of another invocation of the same hint
 					var same []hintCall
 					for _, c := range n.honest {
@@ -223,7 +227,7 @@ var strategies = []strategy{
 					}
 				}
 			}
-			return f(q, in2, out)
+			return safeHint(f, q, in, in2, out)
 		}
 	}},
 	{"replayed", func(tape *simrt.Tape) func(*nemesis, int, solver.Hint, *big.Int, []*big.Int, []*big.Int) error {
@@ -284,8 +288,8 @@ var strategies = []strategy{
 				i := int(pos) % len(in2)
 				in2[i].Add(in2[i], q)
 			}
-			if err := f(q, in2, out); err != nil {
-				return f(q, in, out)
+			if err := safeHint(f, q, in, in2, out); err != nil {
+				return err
 			}
 			for _, o := range out {
 				modq(o, q)
@@ -340,6 +344,34 @@ var strategies = []strategy{
 			return errNemesis
 		}
 	}},
+}
+
+// safeHint evaluates the honest hint on altered inputs in2; hint functions are prover-side
+// code that may legitimately panic or fail on inputs no circuit would hand them, in which case
+// the honest answer for the real inputs is used instead.
+func safeHint(f solver.Hint, q *big.Int, in, in2, out []*big.Int) (err error) {
+	saved := copyInts(out)
+	failed := false
+	func() {
+		defer func() {
+			if r := recover(); r != nil {
+				failed = true
+			}
+		}()
+		if e := f(q, in2, out); e != nil {
+			failed = true
+		}
+	}()
+	if failed {
+		for i := range out {
+			if out[i] == nil {
+				out[i] = new(big.Int)
+			}
+			out[i].Set(saved[i])
+		}
+		return f(q, in, out)
+	}
+	return nil
 }
 
 // gadget cases ---------------------------------------------------------------------------
@@ -471,7 +503,8 @@ func nemesisRun(w *Worker, tape *simrt.Tape, prop string, cases []*gcase, fields
 		o.violate("solver-panic", "solver-panic:"+where+":"+panicSite(pan), "fault-free run panicked: "+pan+"\ncase: "+o.Desc)
 		return o
 	}
-	if free := strings.HasPrefix(adesc, "free-verdict:"); free {
+	free := strings.HasPrefix(adesc, "free-verdict:")
+	if free {
 		// the documentation leaves the verdict open for these inputs (0/0 of the unchecked division)
 		sat = err == nil
 	}
@@ -523,7 +556,7 @@ func nemesisRun(w *Worker, tape *simrt.Tape, prop string, cases []*gcase, fields
 		o.probe("faulty_answer_accepted")
 		// the circuit is satisfied: the outputs must still be the documented ones
 		msg := ""
-		if !sat {
+		if !sat && !free {
 			msg = "the circuit must be unsatisfiable for these inputs but a faulted hint answer satisfied it"
 		} else {
 			msg = check(n.probes)
